@@ -421,6 +421,11 @@ func (fc *funcContext) translateExpr(expr ast.Expr) *expression {
 				if v := fc.pkgCtx.Types[e.Y].Value; v != nil {
 					i, _ := constant.Uint64Val(constant.ToInt(v))
 					if i >= 32 {
+						if e.Op == token.SHR && !isUnsigned(basic) {
+							// An arithmetic shift by the full width or more leaves
+							// only copies of the sign bit.
+							return fc.fixNumber(fc.formatExpr("%e >> 31", e.X), basic)
+						}
 						return fc.formatExpr("0")
 					}
 					return fc.fixNumber(fc.formatExpr("%e %s %s", e.X, op, strconv.FormatUint(i, 10)), basic)
